@@ -499,7 +499,11 @@ def wA2 : Tree := .node (.str ['A']) [.str ['A', '2']] [wB2]
 def wB1 : Tree := .node (.str ['B']) [.str ['B', '1']] []
 def wA1 : Tree := .node (.str ['A']) [.str ['A', '1']] [wA2, wB1]
 def wTop : Tree := .node .none [] [wA1]
-def wEnv : Env := fun _ _ => .ret false
+/-- a lower-casing function for the concrete examples only (ASCII); the model has none of its own -/
+def asciiLower (s : Str) : Str :=
+  s.map (fun c => if 65 ≤ c.toNat ∧ c.toNat ≤ 90 then Char.ofNat (c.toNat + 32) else c)
+
+def wEnv : Env := ⟨fun _ _ => .ret false, asciiLower⟩
 def qA : Query := .name (.lit (.str ['A']))
 def qB : Query := .name (.lit (.str ['B']))
 
